@@ -121,6 +121,34 @@ Definition zero_NewSymbolsDef : def := DNewSymbols zero_pos [].
 Definition zero_BitTimingDef : def := DBitTiming zero_pos 0 0 0.
 Definition zero_NodesDef : def := DNodes zero_pos [].
 
+Definition zero_ValueTableDef : def := DValueTable zero_pos [] [].
+Definition zero_signal : signal_def := {| sg_pos := zero_pos; sg_name := []; sg_start := 0; sg_size := 0; sg_big_endian := false;
+  sg_signed := false; sg_mux_switch := false; sg_multiplexed := false; sg_mux_value := 0; sg_offset := 0; sg_factor := 0;
+  sg_min := 0; sg_max := 0; sg_unit := []; sg_receivers := [] |}.
+Definition zero_MessageDef : def := DMessage {| m_pos := zero_pos; m_id := 0; m_name := []; m_size := 0; m_transmitter := []; m_signals := [] |}.
+Definition zero_SignalDef : def := DSignal zero_signal.
+Definition zero_MessageTransmittersDef : def := DMessageTransmitters zero_pos 0 [].
+Definition zero_EnvironmentVariableDef : def := DEnvVar {| ev_pos := zero_pos; ev_name := []; ev_type := 0; ev_min := 0; ev_max := 0;
+  ev_unit := []; ev_initial := 0; ev_id := 0; ev_access := AccUnrestricted; ev_access_nodes := [] |}.
+Definition zero_EnvironmentVariableDataDef : def := DEnvVarData zero_pos [] 0.
+Definition zero_CommentDef : def := DComment {| cm_pos := zero_pos; cm_object := OtUnspecified; cm_node := []; cm_message_id := 0;
+  cm_signal := []; cm_envvar := []; cm_comment := [] |}.
+Definition zero_AttributeDef : def := DAttribute {| ad_pos := zero_pos; ad_object := OtUnspecified; ad_name := []; ad_type := AtInt;
+  ad_min_int := 0; ad_max_int := 0; ad_min_float := 0; ad_max_float := 0; ad_enum_values := [] |}.
+Definition zero_AttributeDefaultValueDef : def := DAttributeDefault {| dd_pos := zero_pos; dd_name := []; dd_int := 0; dd_float := 0; dd_string := [] |}.
+Definition zero_AttributeValueForObjectDef : def := DAttributeValue {| av_pos := zero_pos; av_name := []; av_object := OtUnspecified;
+  av_message_id := 0; av_signal := []; av_node := []; av_envvar := []; av_int := 0; av_float := 0; av_string := [] |}.
+Definition zero_ValueDescriptionsDef : def := DValueDescriptions {| vs_pos := zero_pos; vs_object := OtUnspecified; vs_message_id := 0;
+  vs_signal := []; vs_envvar := []; vs_values := [] |}.
+
+(* `for i, x := range l { if p x { return uint64(i) } }; return dflt` *)
+Fixpoint first_index_from {A : Type} (i : Z) (p : A -> bool) (l : list A) (dflt : Z) : Z :=
+  match l with
+  | [] => dflt
+  | x :: tl => if p x then i else first_index_from (i + 1) p tl dflt
+  end.
+Definition lint_first_index {A : Type} (p : A -> bool) (l : list A) (dflt : Z) : Z := first_index_from 0 p l dflt.
+
 (* ---- 4. Reportf formats ---------------------------------------------------------------------- *)
 Inductive farg := FStr (b : bytes) | FInt (z : Z) | FFloat (bits : Z).
 
